@@ -67,6 +67,8 @@ def _cases(tier):
     cases += [("double", i) for i in range(10 if tier == "quick" else 250)]
     cases += [("in_pipe_write", i) for i in range(1 if tier == "quick" else 8)]
     cases += [("in_pipe_write_small", i) for i in range(2 if tier == "quick" else 8)]
+    # the victim is killed right after the parent's n-th look at its state (exit code / liveness)
+    cases += [("observe", n, cfg) for n in range(1, 7) for cfg in range(2 if tier == "quick" else 4)]
     cases += [("holding_writer_lock", i) for i in range(len(LOCK_CFGS) if tier == "quick" else 4 * len(LOCK_CFGS))]
     return cfgs, cases
 
@@ -80,7 +82,8 @@ def plan(tier):
 def required(tier):
     return ["executions", "fault_fired", "kind:SIGKILL", "kind:exit3", "kind:exception", "kind:SIGSEGV", "kind:SIGTERM", "kind:sys_exit_2",
             "point:before_put_0", "point:between_puts", "point:before_sentinel", "point:after_sentinel",
-            "async_kills_delivered", "in_delivery_executions", "exit_nonzero", "double_fault_executions"]
+            "async_kills_delivered", "in_delivery_executions", "exit_nonzero", "double_fault_executions",
+            "observation_kill_executions"]
 
 
 def EXHAUSTIVE(tier, m):
@@ -270,6 +273,26 @@ def run_case(ctx, rng, index, casedir):
             sigs.append(stable_hash([n, b, c, after, state["victim"]]))
         else:
             sit["async_kill_not_delivered"] += 1
+    elif case[0] == "observe":
+        _t, nobs, cfg = case
+        n, b, c, victim = [(3, 3, 1, 0), (5, 2, 2, 1), (7, 2, 3, 2), (4, 1, 2, 0)][cfg]
+        w = RR.make_workload(rng, casedir, n)
+        base_out = os.path.join(casedir, "base.gaf")
+        base = RR.run_driver(casedir, "base", ["realign", w.gaf, w.gfa, w.fasta, "-o", base_out, "-c", "1"], {"cores": 1}, None, timeout=120)
+        if base["rc"] != 0:
+            raise RuntimeError(f"baseline failed: {base['result']}")
+        expected = read_text(base_out)
+        # the victim has delivered its records and stalls before its sentinel, so the parent runs into
+        # time-outs and looks at the workers again and again while the victim is still alive
+        fault = {"worker": victim, "point": "after_observation", "n": nobs, "kind": "SIGKILL"}
+        planned = {"cores": c, "timeout_scale": 0.2, "fault": fault, "worker_delays": {f"{victim}:before_sentinel": 4.0}}
+        out = os.path.join(casedir, "out.gaf")
+        run = RR.run_driver(casedir, "obs", ["realign", w.gaf, w.gfa, w.fasta, "-o", out, "-c", str(c)], planned, b, timeout=90)
+        evals = 1
+        sit["executions"] += 1
+        sit["observation_kill_executions"] += 1
+        judge(run, fault, {"config": {"records": n, "batch": b, "cores": c}, "after_observation": nobs}, expected, out, viol, sit)
+        sigs.append(stable_hash(["observe", nobs, cfg]))
     else:
         variant = case[0]
         sit["in_delivery_executions"] += 1
